@@ -286,8 +286,10 @@ def d1(ctx, rep):
 
     def kendall_args(owner, val):
         """Argument expressions of kendalltau when `val` is element 0 / .statistic of a kendalltau(...) call, else None."""
-        val = resolve(owner.node, val) if isinstance(val, ast.AST) else None
         call = None
+        if isinstance(val, tuple) and len(val) == 3 and val[0] == 'unpack' and val[2] == 0 and isinstance(val[1], ast.Call):
+            call = val[1]        # `self.tau, *_ = kendalltau(U, V)` / `self.tau, p = kendalltau(U, V)`
+        val = resolve(owner.node, val) if isinstance(val, ast.AST) else None
         if isinstance(val, ast.Subscript) and const_value(val.slice) == 0 and isinstance(val.value, ast.Call):
             call = val.value
         if isinstance(val, ast.Attribute) and val.attr in ('statistic', 'correlation') and isinstance(val.value, ast.Call):
